@@ -58,18 +58,13 @@ var (
 		// Workflow Execution Started has a namespace field.
 		//enums.EVENT_TYPE_WORKFLOW_EXECUTION_STARTED:        {},
 		enums.EVENT_TYPE_WORKFLOW_EXECUTION_COMPLETED:        {},
-		enums.EVENT_TYPE_WORKFLOW_EXECUTION_FAILED:           {},
 		enums.EVENT_TYPE_WORKFLOW_EXECUTION_TIMED_OUT:        {},
 		enums.EVENT_TYPE_WORKFLOW_TASK_SCHEDULED:             {},
 		enums.EVENT_TYPE_WORKFLOW_TASK_STARTED:               {},
 		enums.EVENT_TYPE_WORKFLOW_TASK_COMPLETED:             {},
 		enums.EVENT_TYPE_WORKFLOW_TASK_TIMED_OUT:             {},
-		enums.EVENT_TYPE_WORKFLOW_TASK_FAILED:                {},
 		enums.EVENT_TYPE_ACTIVITY_TASK_SCHEDULED:             {},
-		enums.EVENT_TYPE_ACTIVITY_TASK_STARTED:               {},
 		enums.EVENT_TYPE_ACTIVITY_TASK_COMPLETED:             {},
-		enums.EVENT_TYPE_ACTIVITY_TASK_FAILED:                {},
-		enums.EVENT_TYPE_ACTIVITY_TASK_TIMED_OUT:             {},
 		enums.EVENT_TYPE_ACTIVITY_TASK_CANCEL_REQUESTED:      {},
 		enums.EVENT_TYPE_ACTIVITY_TASK_CANCELED:              {},
 		enums.EVENT_TYPE_TIMER_STARTED:                       {},
@@ -78,15 +73,20 @@ var (
 		enums.EVENT_TYPE_WORKFLOW_EXECUTION_CANCEL_REQUESTED: {},
 		enums.EVENT_TYPE_WORKFLOW_EXECUTION_CANCELED:         {},
 
+		// Not the event types that carry a Failure (a child-workflow failure names the child's namespace:
+		// Failure.ChildWorkflowExecutionFailureInfo.Namespace) or completion callbacks with links:
+		// WORKFLOW_EXECUTION_FAILED, WORKFLOW_TASK_FAILED, ACTIVITY_TASK_STARTED, ACTIVITY_TASK_FAILED,
+		// ACTIVITY_TASK_TIMED_OUT, MARKER_RECORDED, WORKFLOW_EXECUTION_CONTINUED_AS_NEW,
+		// WORKFLOW_EXECUTION_UPDATE_REJECTED, WORKFLOW_EXECUTION_UPDATE_COMPLETED, NEXUS_OPERATION_FAILED,
+		// NEXUS_OPERATION_CANCELED, NEXUS_OPERATION_TIMED_OUT, WORKFLOW_EXECUTION_OPTIONS_UPDATED.
+
 		// Not these. "External" events have namespace field.
 		//enums.EVENT_TYPE_REQUEST_CANCEL_EXTERNAL_WORKFLOW_EXECUTION_INITIATED: {},
 		//enums.EVENT_TYPE_REQUEST_CANCEL_EXTERNAL_WORKFLOW_EXECUTION_FAILED:    {},
 		//enums.EVENT_TYPE_EXTERNAL_WORKFLOW_EXECUTION_CANCEL_REQUESTED:         {},
 
-		enums.EVENT_TYPE_MARKER_RECORDED:                     {},
-		enums.EVENT_TYPE_WORKFLOW_EXECUTION_SIGNALED:         {},
-		enums.EVENT_TYPE_WORKFLOW_EXECUTION_TERMINATED:       {},
-		enums.EVENT_TYPE_WORKFLOW_EXECUTION_CONTINUED_AS_NEW: {},
+		enums.EVENT_TYPE_WORKFLOW_EXECUTION_SIGNALED:   {},
+		enums.EVENT_TYPE_WORKFLOW_EXECUTION_TERMINATED: {},
 
 		// Not these. "Child" events have namespace field.
 		//enums.EVENT_TYPE_START_CHILD_WORKFLOW_EXECUTION_INITIATED: {},
@@ -106,19 +106,13 @@ var (
 		enums.EVENT_TYPE_UPSERT_WORKFLOW_SEARCH_ATTRIBUTES:       {},
 		enums.EVENT_TYPE_WORKFLOW_EXECUTION_UPDATE_ADMITTED:      {},
 		enums.EVENT_TYPE_WORKFLOW_EXECUTION_UPDATE_ACCEPTED:      {},
-		enums.EVENT_TYPE_WORKFLOW_EXECUTION_UPDATE_REJECTED:      {},
-		enums.EVENT_TYPE_WORKFLOW_EXECUTION_UPDATE_COMPLETED:     {},
 		enums.EVENT_TYPE_WORKFLOW_PROPERTIES_MODIFIED_EXTERNALLY: {},
 		enums.EVENT_TYPE_ACTIVITY_PROPERTIES_MODIFIED_EXTERNALLY: {},
 		enums.EVENT_TYPE_WORKFLOW_PROPERTIES_MODIFIED:            {},
 		enums.EVENT_TYPE_NEXUS_OPERATION_SCHEDULED:               {},
 		enums.EVENT_TYPE_NEXUS_OPERATION_STARTED:                 {},
 		enums.EVENT_TYPE_NEXUS_OPERATION_COMPLETED:               {},
-		enums.EVENT_TYPE_NEXUS_OPERATION_FAILED:                  {},
-		enums.EVENT_TYPE_NEXUS_OPERATION_CANCELED:                {},
-		enums.EVENT_TYPE_NEXUS_OPERATION_TIMED_OUT:               {},
 		enums.EVENT_TYPE_NEXUS_OPERATION_CANCEL_REQUESTED:        {},
-		enums.EVENT_TYPE_WORKFLOW_EXECUTION_OPTIONS_UPDATED:      {},
 
 		// Added in temporal server 1.32. These pause/unpause/time-skipping event
 		// attributes carry no namespace field, so they are skippable.
